@@ -1826,6 +1826,201 @@ def r4(ctx: RuleCtx) -> None:
     _r4_sort(ctx, mod)
     _r4_guards(ctx, mod)
     _r4_scope(ctx, mod)
+    _r4_disjoint(ctx, mod)
+
+
+# -- splices of one apply_changes round do not overlap (the general form of "recorded at most once") ----------------------
+POS_START = ('lineno', 'colno')
+POS_END = ('end_lineno', 'end_colno')
+
+
+def _pos_pair(e: ast.AST) -> T.Optional[T.Tuple[str, str]]:
+    """(`x`, 'start'|'end') for the tuple (x.lineno, x.colno) / (x.end_lineno, x.end_colno)."""
+    if isinstance(e, ast.Tuple) and len(e.elts) == 2 and all(isinstance(x, ast.Attribute) and isinstance(x.value, ast.Name) for x in e.elts):
+        a, b = T.cast(T.List[ast.Attribute], e.elts)
+        if norm(a.value) == norm(b.value):
+            if (a.attr, b.attr) == POS_START:
+                return norm(a.value), 'start'
+            if (a.attr, b.attr) == POS_END:
+                return norm(a.value), 'end'
+    return None
+
+
+def _containment_filter(ctx: RuleCtx, mod: Module) -> bool:
+    """Does apply_changes drop a recorded node that lies inside another recorded node before it splices?
+    False: no expression of apply_changes relates two recorded nodes at all.  True: the filter was read.  Otherwise undecided."""
+    qn = 'Rewriter.apply_changes'
+    fn = mod.func(qn)
+    helpers = {f.name: f for f in _nested_funcs(fn)}
+    for q, f in mod.funcs().items():
+        if q.startswith('Rewriter.') and q.count('.') == 1 and isinstance(f, ast.FunctionDef):
+            helpers.setdefault(f.name, f)
+    for q, f in mod.funcs().items():
+        if '.' not in q and isinstance(f, ast.FunctionDef):
+            helpers.setdefault(f.name, f)
+
+    def over_recorded(it: ast.AST) -> bool:
+        return any((attr_chain(x) or '').endswith('.modified_nodes') for x in ast.walk(it))
+    # iteration variables that range over the recorded nodes
+    comps = [c for c in ast.walk(fn) if isinstance(c, (ast.ListComp, ast.SetComp, ast.GeneratorExp))]
+    rel: T.List[T.Tuple[ast.AST, str, str, ast.AST]] = []     # (outer comprehension, its variable, inner variable, inner comprehension)
+    for c in comps:
+        if len(c.generators) != 1 or not isinstance(c.generators[0].target, ast.Name) or not over_recorded(c.generators[0].iter):
+            continue
+        v = c.generators[0].target.id
+        for cond in c.generators[0].ifs:
+            for c2 in ast.walk(cond):
+                if isinstance(c2, (ast.ListComp, ast.SetComp, ast.GeneratorExp)) and len(c2.generators) == 1 and isinstance(c2.generators[0].target, ast.Name) \
+                        and over_recorded(c2.generators[0].iter):
+                    rel.append((c, v, c2.generators[0].target.id, c2))
+    loops = [n for n in ast.walk(fn) if isinstance(n, ast.For) and over_recorded(n.iter)]
+    nested_loops = [n for n in loops if any(m is not n and isinstance(m, (ast.For, ast.ListComp, ast.SetComp, ast.GeneratorExp)) and
+                                            over_recorded(m.iter if isinstance(m, ast.For) else m.generators[0].iter) for b in n.body for m in ast.walk(b))]
+    if nested_loops:
+        raise Undecided(f'{qn}: a loop over the recorded nodes holds a second pass over them (`{short(nested_loops[0])}`): a containment filter the rule cannot read')
+    if not rel:
+        return False
+    if len(rel) != 1:
+        raise Undecided(f'{qn}: {len(rel)} pairwise passes over the recorded nodes')
+    outer_c, x, y, inner_c = rel[0]
+    cond = outer_c.generators[0].ifs
+    # shape: [.. for x in recorded if not any(<x inside y> for y in recorded)]
+    if len(cond) != 1:
+        raise Undecided(f'{qn}: pairwise filter with {len(cond)} conditions')
+    t, pol = _strip_not(cond[0])
+    if not (isinstance(t, ast.Call) and norm(t.func) == 'any' and len(t.args) == 1 and t.args[0] is inner_c and not pol and not inner_c.generators[0].ifs):
+        raise Undecided(f'{qn}: pairwise filter `{short(cond[0])}` is not of the form `not any(<relation> for {y} in <recorded>)`')
+    body: ast.AST = inner_c.elt
+    if isinstance(body, ast.Call) and (attr_chain(body.func) or '').split('.')[-1] in helpers:
+        h = helpers[(attr_chain(body.func) or '').split('.')[-1]]
+        r = _single_return(h)
+        if r is None:
+            raise Undecided(f'{qn}: relation helper {h.name} is not a single return')
+        b = bind_args(body, h, isinstance(body.func, ast.Attribute))
+        body = _Subst(b).visit(copy.deepcopy(r))
+    conj = body.values if isinstance(body, ast.BoolOp) and isinstance(body.op, ast.And) else [body]
+    facts: T.Set[str] = set()
+    for cj in conj:
+        s = norm(cj)
+        if s in (f'{x} is not {y}', f'{y} is not {x}', f'{x} != {y}', f'{y} != {x}'):
+            facts.add('distinct')
+        elif s in (f'{x}.filename == {y}.filename', f'{y}.filename == {x}.filename'):
+            facts.add('same file')
+        elif isinstance(cj, ast.Compare) and len(cj.ops) == 1 and isinstance(cj.ops[0], (ast.LtE, ast.GtE)):
+            l, r_ = _pos_pair(cj.left), _pos_pair(cj.comparators[0])
+            if l is None or r_ is None or l[1] != r_[1] or {l[0], r_[0]} != {x, y}:
+                raise Undecided(f'{qn}: cannot read `{short(cj)}` of the containment relation')
+            small, big = (l, r_) if isinstance(cj.ops[0], ast.LtE) else (r_, l)
+            # x inside y: y.start <= x.start, x.end <= y.end
+            if l[1] == 'start':
+                facts.add('start ok' if (small[0], big[0]) == (y, x) else 'start reversed')
+            else:
+                facts.add('end ok' if (small[0], big[0]) == (x, y) else 'end reversed')
+        else:
+            raise Undecided(f'{qn}: cannot read `{short(cj)}` of the containment relation')
+    what = f'{qn}: a recorded node that lies inside another recorded node of the same file is dropped before splicing (the outer one is re-printed with it)'
+    ctx.require(facts == {'distinct', 'same file', 'start ok', 'end ok'}, what, mod, qn, 'containment filter over the recorded nodes',
+                f'the filter `{short(cond[0], 100)}` does not drop exactly the nodes lying inside another recorded node of the same file (read: {sorted(facts)}; '
+                'wanted: distinct, same file, outer start <= inner start, inner end <= outer end)', outer_c)
+    return facts == {'distinct', 'same file', 'start ok', 'end ok'}
+
+
+def _feasible_after(cfg: CFG, src: Node, dst: Node, flag: T.Optional[str]) -> bool:
+    """Is there a way src -> dst (at least one edge) that no test contradicts, reading only the constant assignments of one boolean local?"""
+    UNK = 'unknown'
+    seen: T.Set[T.Tuple[int, T.Any]] = set()
+    stack: T.List[T.Tuple[int, T.Any]] = [(src.id, UNK)]
+    by_id = {n.id: n for n in cfg.nodes}
+    while stack:
+        a, val = stack.pop()
+        na = by_id[a]
+        facts: T.List[T.Tuple[ast.AST, bool, T.Any]] = []
+        if na.kind == 'test' and flag is not None:
+            facts = [(at, tr, ed) for at, tr, ed in _facts_on_edges(na.ast.test) if isinstance(at, ast.Name) and at.id == flag]  # type: ignore[union-attr]
+        for b, lab in cfg.succ[a]:
+            if val is not UNK and any(ed == lab and tr != val for _, tr, ed in facts):
+                continue
+            nb = by_id[b]
+            v2 = val
+            if flag is not None and nb.ast is not None and nb.kind in ('stmt', 'iter', 'with_enter'):
+                heads = [nb.ast.target] if isinstance(nb.ast, ast.For) else [nb.ast]
+                binds = any(isinstance(z, ast.Name) and z.id == flag and isinstance(z.ctx, ast.Store) for h in heads for z in ast.walk(h))
+                if binds:
+                    st = nb.ast
+                    v2 = st.value.value if isinstance(st, ast.Assign) and len(st.targets) == 1 and isinstance(st.targets[0], ast.Name) \
+                        and isinstance(st.value, ast.Constant) and isinstance(st.value.value, bool) else UNK
+            if b == dst.id:
+                return True
+            if (b, v2) not in seen:
+                seen.add((b, v2))
+                stack.append((b, v2))
+    return False
+
+
+def _rebinds(node: Node, var: str) -> bool:
+    if node.ast is None or node.kind not in ('stmt', 'iter', 'with_enter'):
+        return False
+    heads = [node.ast.target] if isinstance(node.ast, ast.For) else [i.optional_vars for i in node.ast.items if i.optional_vars is not None] \
+        if isinstance(node.ast, ast.With) else [node.ast] if isinstance(node.ast, (ast.Assign, ast.AnnAssign, ast.AugAssign)) else []
+    if isinstance(node.ast, (ast.Assign, ast.AnnAssign, ast.AugAssign)):
+        heads = node.ast.targets if isinstance(node.ast, ast.Assign) else [node.ast.target]
+    return any(isinstance(z, ast.Name) and z.id == var and isinstance(z.ctx, ast.Store) for h in heads for z in ast.walk(h))
+
+
+def _r4_disjoint(ctx: RuleCtx, mod: Module) -> None:
+    """apply_changes computes every splice range from the positions of the text as it was read; that is only right when the ranges of one
+    round are pairwise disjoint.  `x not in modified_nodes` excludes the same node twice; a node *inside* another recorded node is the
+    same fault (the inner splice changes the length of the outer range).  So: wherever one round can record two different nodes
+    (two recording statements on one feasible path, or one recording statement on a loop that re-binds the recorded variable) either the
+    pair is excluded by a flag the function itself sets, or apply_changes drops nodes lying inside another recorded node."""
+    def is_list(e: ast.AST) -> bool:
+        return (attr_chain(e) or '').endswith('.modified_nodes')
+    handled = _containment_filter(ctx, mod)
+    n_pairs = 0
+    for qn in list(mod.funcs()):
+        fn0 = mod.funcs()[qn]
+        if not isinstance(fn0, ast.FunctionDef) or 'modified_nodes' not in norm(fn0):
+            continue
+        fn = nf_func(mod, qn)
+        ws = [(st, elts[0].id) for st, elts in _list_writers(fn, is_list) if mod.enclosing_func(st) == qn and len(elts) == 1 and isinstance(elts[0], ast.Name)]
+        if not ws:
+            continue
+        cfg = CFG(fn)
+        flags = {z.id for n in cfg.nodes if n.kind == 'test' for at, _, _ in _facts_on_edges(n.ast.test) for z in [at] if isinstance(z, ast.Name)}  # type: ignore[union-attr]
+        for st1, v1 in ws:
+            for st2, v2 in ws:
+                for a in cfg.stmt_nodes(st1):
+                    for b in cfg.stmt_nodes(st2):
+                        if not _feasible_after(cfg, a, b, None):
+                            continue
+                        if v1 == v2:
+                            # the same variable: a different node only when it is re-bound on the way
+                            mids = [m for m in cfg.nodes if _rebinds(m, v1) and _feasible_after(cfg, a, m, None) and (m is b or _feasible_after(cfg, m, b, None))]
+                            if not mids:
+                                continue
+                        n_pairs += 1
+                        what = f'{qn}: `{v1}` and then `{v2}` recorded in one round'
+                        excl = [f for f in sorted(flags) if not _feasible_after(cfg, a, b, f)]
+                        if excl:
+                            ctx.ok(f'{what}: excluded, the second record is skipped by the flag `{excl[0]}` set after the first')
+                            continue
+                        if handled:
+                            ctx.ok(f'{what}: apply_changes drops the one lying inside the other')
+                            continue
+                        words = {v1, v2, 'modified_nodes'}
+                        opaque = _opaque_tests(cfg, [b], words)
+                        if opaque:
+                            raise Undecided(f'{what}: whether one lies inside the other may be decided by `{short(opaque[0])}`, which the rule cannot read')
+                        if st1 is st2:
+                            ctx.violation(mod, qn, 'two nodes recorded by different iterations of one loop may lie inside each other',
+                                          f'`{short(st1)}` runs once per loop iteration with `{v1}` re-bound in between, guarded only against recording the *same* node twice; '
+                                          'an ArrayNode argument of a recorded FunctionNode (or an array inside a recorded array) can be recorded as well, and '
+                                          'Rewriter.apply_changes neither drops nodes lying inside another recorded node nor re-computes offsets: the inner splice changes the '
+                                          'length of the text, the outer splice then cuts at its stale end offset and removes/keeps the wrong characters after the statement '
+                                          "(`executable('t', ['a.c', 'c.c'], 'b.c', install_dir: 'x')` + `target t rm a.c b.c` deletes the following statement)", st1)
+                        else:
+                            raise Undecided(f'{what} on one path, no containment handling seen: whether the two can lie inside each other is not visible')
+    ctx.floor('pairs of records of one round examined', n_pairs, 2)
 
 
 def _r4_scope(ctx: RuleCtx, mod: Module) -> None:
